@@ -990,6 +990,7 @@ theorem noCodeLast_fills (p : Node) (E : List Str) : noCodeLast (fills p E) ↔ 
     on the blocks in front, then empty blocks only, which append fillers to a trailing code block -/
 theorem parseDocument_trailing (tab : Nat) (O : Str) (j : Nat) :
     ∃ p1 r1 E0 E1, (∀ b ∈ E0, b = [] ∨ b = ['\n']) ∧ (∀ b ∈ E1, b = [] ∨ b = ['\n']) ∧ E0 ≠ [] ∧ E1 ≠ [] ∧
+      (∃ bs, RunB tab [] [] (Node.el "div") bs (p1, r1)) ∧
       parseDocument tab (O ++ nn) = some (fills p1 E0, r1) ∧
       parseDocument tab (O ++ nn ++ List.replicate j '\n') = some (fills p1 E1, r1) := by
   -- `O = V ++ "\n"^i` with `V` not ending in a line feed
@@ -1026,7 +1027,7 @@ theorem parseDocument_trailing (tab : Nat) (O : Str) (j : Nat) :
     have hE0 := blocks_replicate_nl w.length
     have hE1 := blocks_replicate_nl (w.length + j)
     rw [RunB.emptyish_iff hE0] at h2
-    refine ⟨p1, r1, _, _, hE0, hE1, blocks_ne_nil _, blocks_ne_nil _, by rw [h2], ?_⟩
+    refine ⟨p1, r1, _, _, hE0, hE1, blocks_ne_nil _, blocks_ne_nil _, ⟨_, h1⟩, by rw [h2], ?_⟩
     rw [parseDocument_eq_iff, e1]
     change RunB tab [] [] (Node.el "div") (blocks _) _
     rw [blocks_append_nn V hV', RunB.append_iff]
@@ -1036,7 +1037,7 @@ theorem parseDocument_trailing (tab : Nat) (O : Str) (j : Nat) :
 theorem parseDocument_trailing_noCode (tab : Nat) (O : Str) (j : Nat)
     (h : ∀ root refs, parseDocument tab (O ++ nn) = some (root, refs) → noCodeLast root) :
     parseDocument tab (O ++ nn ++ List.replicate j '\n') = parseDocument tab (O ++ nn) := by
-  obtain ⟨p1, r1, E0, E1, _, _, _, _, h0, h1⟩ := parseDocument_trailing tab O j
+  obtain ⟨p1, r1, E0, E1, _, _, _, _, _, h0, h1⟩ := parseDocument_trailing tab O j
   have hn : noCodeLast p1 := (noCodeLast_fills p1 E0).1 (h _ _ h0)
   rw [h0, h1, fills_of_noCode hn, fills_of_noCode hn]
 
